@@ -833,6 +833,25 @@ package badger
 //@   assert[value-directory] before call ReadDir : arg0 == vlog.dirPath
 //@   assert[path-from-id] before call fpath : arg0 == vlog && arg1 == uint32(ret0(ParseUint#1))
 
+// DropAll: writes are blocked and compactions stopped first; the memtables are released and a
+// fresh one is installed; every table of every level is deleted in the MANIFEST before it is
+// removed from its level and loses its file; then the value log files go, and file ids restart.
+//@ func (*DB).dropAll
+//@   props C29
+//@   light
+//@   assert[writes-blocked-first] before call stopCompactions : called(prepareToDrop#1) && ret1(prepareToDrop#1) == nil
+//@   assert[memtables-under-lock] before call newMemTable : held(db.lock) && len(db.imm) == 0
+//@   assert[tree-then-value-log] before call dropAll : called(dropTree#1) && ret1(dropTree#1) == nil && arg0 == db.vlog
+//@   assert[fresh-memtable-before-tree] before call dropTree : arg0 == db.lc && db.mt == ret0(newMemTable#1) && ret1(newMemTable#1) == nil
+
+//@ func (*levelsController).dropTree
+//@   props C29 C14 C08
+//@   light
+//@   assert[every-table-deleted-in-manifest] before call newDeleteChange : arg0 == ret(ID#1) && !table.IsInmemory
+//@   assert[manifest-before-levels-are-emptied] before call Lock : called(addChanges#1) && ret(addChanges#1) == nil
+//@   assert[files-go-last] before call DecrRef : called(addChanges#1) && ret(addChanges#1) == nil
+//@   assert[all-tables-counted] before return#4 : result0 == len(all) && result1 == nil
+
 // ---- subscriptions (C32): patterns are matched against the user key ----
 
 //@ func (*publisher).publishUpdates
